@@ -203,6 +203,32 @@ def representation_stream():
             a, b = outs["polars"], outs["sqlite"]
             if not (isinstance(a, list) and isinstance(b, list) and len(a) == len(b) and all(oracle.cell_eq(x, y, tol=1e-9) for x, y in zip(a, b))):
                 diffs.append(dict(kind="backends_differ", src=f"computed {name}", tgt=str(target), polars=a, sqlite=b))
+    # float → string at the ends of the double range: the text of a *finite* value is a numeral that reads back as that value, and only an
+    # infinite value is spelled 'inf' / '-inf' (the SQL dialects spell infinity through a comparison with a large constant — that constant
+    # must not be a value a column can hold)
+    import math
+    ext = [1e308, -1e308, 1.5e308, -1.5e308, 1e300, 9.9e307, float("inf"), float("-inf"), None, 1e-308, 1.25]
+    ext_df = pl.DataFrame({"k": list(range(len(ext))), "f": ext}, schema={"k": pl.Int64, "f": pl.Float64})
+    ext_df.write_database("c17ext", eng)
+    for be in ("polars", "sqlite"):
+        t = pdt.Table(ext_df, name="e") if be == "polars" else pdt.Table("c17ext", pdt.SqlAlchemy(eng))
+        try:
+            o = (t >> pdt.mutate(y=t.f.cast(pdt.String())) >> pdt.mutate(z=pdt.C.y.cast(pdt.Float64())) >> pdt.arrange(t.k)
+                 >> pdt.select(pdt.C.y, pdt.C.z) >> pdt.export(pdt.Polars()))
+            ys, zs = o.get_column("y").to_list(), o.get_column("z").to_list()
+        except Exception as e:  # noqa: BLE001
+            diffs.append(dict(kind="extreme_float_text", backend=be, error=type(e).__name__ + ": " + str(e)[:200]))
+            continue
+        for v, y, z in zip(ext, ys, zs):
+            n += 1
+            if v is None:
+                ok = y is None and z is None
+            elif math.isinf(v):
+                ok = y == ("inf" if v > 0 else "-inf") and z == v
+            else:
+                ok = isinstance(y, str) and "inf" not in y.lower() and "nan" not in y.lower() and z is not None and math.isfinite(z) and abs(z - v) <= 1e-12 * abs(v)
+            if not ok:
+                diffs.append(dict(kind="extreme_float_text", backend=be, src=f"float64 {v!r}", tgt="string", text=y, read_back=P.encode_val(z)))
     return diffs, n
 
 
